@@ -44,7 +44,7 @@ inductive PVal where
   | obj (cls : String) (params : List (String × PVal))   -- object with `to_dict` from `simple_serialization`
   | callable (name : String) (isSelf : Bool)        -- `module.__name__`, and whether that name resolves to the object itself
   | ncallable (tag : String)                        -- callable object without `__name__` (functools.partial, quota.constant(5))
-  | opaque (tag : String)                           -- no to_dict, not atomic/convertible, not iterable, not callable
+  | foreign (tag : String)                           -- no to_dict, not atomic/convertible, not iterable, not callable
 deriving Repr, Inhabited
 
 /-- JSON-shaped dictionary form -/
@@ -81,7 +81,7 @@ def PVal.beq : PVal → PVal → Bool
   | .dict a, .dict b => beqD a b
   | .obj c a, .obj d b => decide (c = d) && beqF a b
   | .callable n s, .callable m t => decide (n = m) && decide (s = t)
-  | .opaque a, .opaque b => decide (a = b)
+  | .foreign a, .foreign b => decide (a = b)
   | .ncallable a, .ncallable b => decide (a = b)
   | _, _ => false
 def beqL : List PVal → List PVal → Bool
@@ -100,7 +100,7 @@ end
 
 mutual
 theorem PVal.beq_refl : ∀ a : PVal, a.beq a = true
-  | .atom _ | .frac _ | .dec _ | .opaque _ | .ncallable _ => by simp [PVal.beq]
+  | .atom _ | .frac _ | .dec _ | .foreign _ | .ncallable _ => by simp [PVal.beq]
   | .callable _ _ => by simp [PVal.beq]
   | .list l | .tuple l | .fset l | .set l => by simp [PVal.beq, beqL_refl l]
   | .dict d => by simp [PVal.beq, beqD_refl d]
@@ -121,7 +121,7 @@ theorem PVal.eq_of_beq : ∀ a b : PVal, a.beq b = true → a = b
   | .atom a, b => by cases b <;> simp [PVal.beq]
   | .frac a, b => by cases b <;> simp [PVal.beq]
   | .dec a, b => by cases b <;> simp [PVal.beq]
-  | .opaque a, b => by cases b <;> simp [PVal.beq]
+  | .foreign a, b => by cases b <;> simp [PVal.beq]
   | .ncallable a, b => by cases b <;> simp [PVal.beq]
   | .callable n s, b => by cases b <;> simp [PVal.beq]
   | .list l, b => by
@@ -179,14 +179,19 @@ instance : DecidableEq PVal := fun a b =>
   else isFalse (fun e => h (e ▸ PVal.beq_refl a))
 
 /-! ### identifiers (`is_scoped_identifier`, persist.py L176-181; ASCII model of `str.isidentifier`) -/
-def isIdStart (c : Char) : Bool := c.isAlpha || c == '_'
-def isIdCont (c : Char) : Bool := c.isAlphanum || c == '_'
-def isIdentifier (s : String) : Bool :=
-  match s.toList with
+def isIdStart (c : Char) : Bool :=
+  (c.val ≥ 65 && c.val ≤ 90) || (c.val ≥ 97 && c.val ≤ 122) || c = '_'
+def isIdCont (c : Char) : Bool := isIdStart c || (c.val ≥ 48 && c.val ≤ 57)
+def isIdentifierL : List Char → Bool
   | [] => false
   | c :: cs => isIdStart c && cs.all isIdCont
-def isScopedIdent (s : String) : Bool :=
-  !(s.startsWith ".") && (s.splitOn ".").all isIdentifier
+/-- `value.split('.')` on the character list (structural, so that closed instances reduce in the kernel) -/
+def dotChunks : List Char → List Char → List (List Char)
+  | [], cur => [cur.reverse]
+  | c :: cs, cur => if c = '.' then cur.reverse :: dotChunks cs [] else dotChunks cs (c :: cur)
+/-- `not value.startswith('.') and all(chunk.isidentifier() for chunk in value.split('.'))`; a leading dot gives an
+    empty first chunk, which is not an identifier, so the first conjunct is implied. -/
+def isScopedIdent (s : String) : Bool := (dotChunks s.toList []).all isIdentifierL
 
 /-! ### serialisation -/
 def atomJ : Atom → J
@@ -229,7 +234,7 @@ def serialize : PVal → Except Err J
   | .callable name isSelf =>                            -- L68-77
       if isSelf then pure (.dict [("callable", .str name)]) else throw Err.valueError
   | .ncallable _ => throw (Err.other "AttributeError")  -- L69: `value.__name__` does not exist
-  | .opaque _ => throw Err.valueError                   -- L78-79
+  | .foreign _ => throw Err.valueError                   -- L78-79
 def serL : List PVal → Except Err (List J)
   | [] => pure []
   | v :: t => do let j ← serialize v; let js ← serL t; pure (j :: js)
@@ -420,7 +425,7 @@ def Representable (env : Env) : PVal → Bool
   | .obj cls ps => isScopedIdent cls && decide (cls ∈ env.classes) && reprF env ps
                 && decide (ps.map (·.1)).Nodup && !(ps.map (·.1)).contains "class" && !reservedHitF ps
   | .callable n s => s && isScopedIdent n && decide (n ∈ env.callables)
-  | .ncallable _ | .opaque _ => false
+  | .ncallable _ | .foreign _ => false
 def reprL (env : Env) : List PVal → Bool
   | [] => true
   | v :: t => Representable env v && reprL env t
@@ -440,7 +445,7 @@ def Serializable : PVal → Bool
   | .dict d => serzD d
   | .obj _ ps => serzF ps
   | .callable _ s => s
-  | .ncallable _ | .opaque _ => false
+  | .ncallable _ | .foreign _ => false
 def serzL : List PVal → Bool
   | [] => true
   | v :: t => Serializable v && serzL t
